@@ -62,6 +62,7 @@ def main():
         if "check_exit_first_run" in out:
             meta["detection"] = {"check": "sa.check %s (quick) with SA_REPO = the scratch worktree with the patch applied (the state of /verif when the change was first seen)" % pid,
                                  "exit": out["check_exit_first_run"], "reports": out["check_reports"]}
+            meta["detection_first"] = dict(meta["detection"])  # kept as delivered; seed_detect.py later overwrites "detection" only
         json.dump(meta, open(dst + "/meta.json", "w"), indent=1)
     print(json.dumps(out, indent=1))
     return 0 if ok else 1
